@@ -673,6 +673,11 @@ func ReadRequest(b *bfe_bufio.Reader, maxUriBytes int) (req *Request, err error)
 	if err != nil {
 		return nil, err
 	}
+	for _, k := range headerKeys {
+		if !validHeaderName(k) {
+			return nil, &badStringError{"invalid header name", k}
+		}
+	}
 	req.Header = Header(mimeHeader)
 	req.HeaderKeys = headerKeys
 
